@@ -221,7 +221,7 @@ def parse_kani(out):
     return res
 
 
-def run_harness(h, tier, use_cache=True, extra=(), log_suffix="", focus=None):
+def run_harness(h, tier, use_cache=True, extra=(), log_suffix="", focus=None, big=False):
     """Run one harness; returns result dict."""
     key = cache_key(h, tier)
     cpath = os.path.join(CACHE, "results", key + ".json")
@@ -245,9 +245,9 @@ def run_harness(h, tier, use_cache=True, extra=(), log_suffix="", focus=None):
         timed_out = False
         with open(logp, "w") as lf:
             p = subprocess.Popen(cmd, cwd=cwd, env=kani_env(focus=focus), stdout=lf, stderr=subprocess.STDOUT,
-                                 preexec_fn=limit_mem(48 if extra else max(16, h["mem_gb"] * 1.25)))
+                                 preexec_fn=limit_mem(48 if (extra or big) else max(16, h["mem_gb"] * 1.25)))
             try:
-                p.wait(timeout=h["timeout_s"] * (3 if extra else 1))
+                p.wait(timeout=h["timeout_s"] * (3 if (extra or big) else 1))
             except subprocess.TimeoutExpired:
                 timed_out = True
                 try:
@@ -548,16 +548,33 @@ def check_property(prop, tier, only=None, jobs=None, use_cache=True, do_replay=T
     # (one weight unit ~ 2.5 GB peak; 62 GB machine)
     cap = int(os.environ.get("VERIF_BUDGET", "14"))
     budget = threading.Semaphore(cap)
+    # only one thread at a time collects its units (two threads each holding a part of what they
+    # need could otherwise wait for each other for ever); releasing needs no lock
+    acq = threading.Lock()
 
     def job(h):
         w = min(cap, h["weight"])
-        for _ in range(w):
-            budget.acquire()
+        with acq:
+            for _ in range(w):
+                budget.acquire()
         try:
-            return h, run_harness(h, tier, use_cache=use_cache)
+            r = run_harness(h, tier, use_cache=use_cache)
         finally:
             for _ in range(w):
                 budget.release()
+        if r.get("oom") and r["verdict"] is not None:
+            # the solver ran out of memory (typically a changed tree that drags more code into the
+            # harness): one more attempt with the whole memory budget and three times the time
+            with acq:
+                for _ in range(cap):
+                    budget.acquire()
+            try:
+                say("  [%s] %-44s out of memory after %.0fs - retrying alone with 48 GB" % (prop, h["name"], r["wall_s"]))
+                r = run_harness(h, tier, use_cache=False, big=True, log_suffix=".big")
+            finally:
+                for _ in range(cap):
+                    budget.release()
+        return h, r
 
     results = []
     with cf.ThreadPoolExecutor(max_workers=jobs) as ex:
@@ -581,8 +598,9 @@ def check_property(prop, tier, only=None, jobs=None, use_cache=True, do_replay=T
         def fjob(hr):
             h, r = hr
             w = min(cap, h["weight"])
-            for _ in range(w):
-                budget.acquire()
+            with acq:
+                for _ in range(w):
+                    budget.acquire()
             try:
                 return h, r, run_harness(h, tier, use_cache=False, focus=prop)
             finally:
